@@ -73,9 +73,11 @@ type Conn struct {
 	closeReadCtx  context.Context
 	closeReadDone chan struct{}
 
-	closed  chan struct{}
-	closeMu sync.Mutex
-	closing bool
+	closed   chan struct{}
+	closedMu sync.Mutex
+	closeMu  sync.Mutex
+	closing  bool
+	released bool
 
 	pingCounter   int32
 	activePingsMu sync.Mutex
@@ -148,6 +150,26 @@ func (c *Conn) close() error {
 	c.closeMu.Lock()
 	defer c.closeMu.Unlock()
 
+	if c.released {
+		return net.ErrClosed
+	}
+	c.released = true
+
+	err := c.closeTransport()
+	// With the close of rwc, these become safe to close.
+	c.msgWriter.close()
+	c.msgReader.close()
+	return err
+}
+
+// closeTransport marks the connection as closed and closes the underlying transport
+// without releasing the resources guarded by the read and write locks.
+// It never waits for those locks and so may be called while holding them.
+// close must still be called afterwards.
+func (c *Conn) closeTransport() error {
+	c.closedMu.Lock()
+	defer c.closedMu.Unlock()
+
 	if c.isClosed() {
 		return net.ErrClosed
 	}
@@ -157,11 +179,7 @@ func (c *Conn) close() error {
 	// Have to close after c.closed is closed to ensure any goroutine that wakes up
 	// from the connection being closed also sees that c.closed is closed and returns
 	// closeErr.
-	err := c.rwc.Close()
-	// With the close of rwc, these become safe to close.
-	c.msgWriter.close()
-	c.msgReader.close()
-	return err
+	return c.rwc.Close()
 }
 
 func (c *Conn) timeoutLoop() {
